@@ -40,6 +40,8 @@ ModelAct(ev) ==
     CASE ev.e = "Set"     -> ev.k \in Kinds /\ Set(ev.k)
       [] ev.e = "Split"   -> Split
       [] ev.e = "Recover" -> Recover
+      [] ev.e = "Send"    -> Send([api |-> ev.api, style |-> ev.style, how |-> ev.how])
+      [] ev.e = "SendPlain" -> SendPlain(ev.api)
       [] OTHER            -> FALSE
 
 (* property evaluation on the logged facts; returns a set of [prop, kinds] *)
@@ -63,10 +65,25 @@ RecoverFailures(m, ev) ==
         bad == full \ excused
     IN  IF bad # {} THEN {[prop |-> "Recover", kinds |-> bad]} ELSE {}
 
+\* client path: the stanza the client logged as sent on the encrypted path is judged like a public part
+\* (wire: kinds of its children / root attributes, wtok: raw-substring hits, call: kinds of toXml(SceAll) of the
+\* message the extension returned).  Plain sends are a control and never judged.
+SendFailures(ev) ==
+    LET o == ev.o
+        dom == Kinds \cup SetOf(o.wire) \cup SetOf(o.call)
+        cw == [k \in dom |-> CountIn(o.wire, k)]
+        ca == [k \in dom |-> CountIn(o.call, k)]
+        leak == O_NoLeak(SetOf(o.wire) \ {Payload}, SetOf(o.wtok))
+        lost == O_WirePublic(dom, cw, ca)
+    IN  IF o.sent = 0 THEN {}
+        ELSE (IF leak # {} THEN {[prop |-> "WireNoLeak", kinds |-> leak]} ELSE {})
+             \cup (IF lost # {} THEN {[prop |-> "WirePublic", kinds |-> lost]} ELSE {})
+
 Failures(m, ev) ==
     CASE ev.e = "Split" /\ "pub" \in DOMAIN ev.o -> SplitFailures(ev)
       [] ev.e = "Split"   -> {[prop |-> "Partition", kinds |-> {"?malformed"}]}
       [] ev.e = "Recover" -> RecoverFailures(m, ev)
+      [] ev.e = "Send"    -> SendFailures(ev)
       [] OTHER -> {}
 
 MonNext(m, ev) == IF ev.e = "Set" THEN [m EXCEPT !.S = m.S \cup {ev.k}] ELSE m
@@ -84,6 +101,13 @@ Agrees(ev) ==
             /\ SetOf(ev.o.rall) = all' \ Implied(msg')
             /\ SetOf(ev.o.xpub) = {k \in all' : Accept("Public", k)} \ Implied(msg')
             /\ SetOf(ev.o.xsens) = {k \in all' : Accept("Sensitive", k)}
+      [] ev.e = "Send" ->
+            /\ ev.o.sent = 1 /\ ev.o.encryptCalls = 1
+            /\ SetOf(ev.o.wire) = wire' /\ Len(ev.o.wire) = Cardinality(wire')
+            /\ ev.o.wire = ev.o.cpub                       \* exactly toXml(ScePublic) of what the extension returned
+            /\ SetOf(ev.o.wtok) \subseteq wire'
+      [] ev.e = "SendPlain" ->
+            /\ ev.o.sent = 1 /\ SetOf(ev.o.wire) = wire' /\ SetOf(ev.o.wtok) \subseteq wire'
       [] OTHER -> FALSE
 
 ResetStep(ev) ==
@@ -101,7 +125,7 @@ OpStep(ev) ==
         /\ ndiv' = IF d /\ ~dflag THEN ndiv + 1 ELSE ndiv
         /\ divs' = IF d /\ ~dflag /\ Len(divs) < 10
                    THEN Append(divs, [case |-> cid, line |-> l, e |-> ev.e, impl |-> ev.o,
-                                      model |-> [msg |-> msg', pub |-> pub', sens |-> sens', all |-> all', rec |-> rec']])
+                                      model |-> [msg |-> msg', pub |-> pub', sens |-> sens', all |-> all', rec |-> rec', wire |-> wire']])
                    ELSE divs
     /\ UNCHANGED <<cid, ncases>>
 
